@@ -3,6 +3,7 @@
 //! documentation, never from pgcat's code.
 
 pub mod c06;
+pub mod c13;
 pub mod pghash;
 
 use std::panic::{catch_unwind, AssertUnwindSafe};
